@@ -75,7 +75,7 @@ BIG = {
             _c(NHosts=4, SpecChoices={0, 1}, TargetChoices={0, 1, 2, 3, 4},
                PoolConds={"missing", "shutdown", "busy", "failing", "unwritable"}, MaxBad=4,
                ErrKinds={"Unavailable", "ConnectionShutdown"}, MaxRetries=2, Late=False, Timeouts=False,
-               IdChoices={"zero", "one"})),
+               IdChoices={"zero"})),
 }
 LIVENESS = _c(NHosts=2, OkKinds={"rows", "more"}, Decisions={"RETRY", "NEXT", "RETHROW"}, MaxEpoch=2, Late=False,
               PoolConds={"missing"}, MaxBad=1, TimeChoices={0, 302})
@@ -331,10 +331,15 @@ def run(ctx, pid):
     # ---- thorough: a large exhaustive model and simulated behaviours of it replayed on the real objects
     if not ctx.quick:
         for wname in TLA_WITNESSES[pid]:
-            wcfg = tlc.write_cfg(os.path.join(ctx.scratch, wname + ".cfg"), constants=GRAPHS[pid][0][1], invariants=[wname],
-                                 deadlock=False)
-            wres = tlc.check_model("Request", wcfg, ctx.scratch, timeout=600)
-            if wres.invariant != wname:
+            hit = False
+            for n, (_, wconsts) in enumerate(GRAPHS[pid]):
+                wcfg = tlc.write_cfg(os.path.join(ctx.scratch, "%s_%d.cfg" % (wname, n)), constants=wconsts, invariants=[wname],
+                                     deadlock=False)
+                wres = tlc.check_model("Request", wcfg, ctx.scratch, timeout=600)
+                if wres.invariant == wname:
+                    hit = True
+                    break
+            if not hit:
                 raise tlc.MachineryError("vacuity witness %s not reachable according to TLC" % wname)
         ctx.note("tlc_witnesses_violated", TLA_WITNESSES[pid])
         label, big = BIG[pid]
